@@ -75,7 +75,11 @@ func (c07) Run(c *fw.Case) {
 	}
 	shapeKey := strings.Join(shape, ",")
 	var ts traceStats
-	for _, im := range gen.UInstances(array) {
+	insts := gen.UInstances(array)
+	if c.Idx%2 == 0 {
+		insts = append(insts, gen.ULongInstances(r, array, 4)...) // size stress: 63..257 items / properties
+	}
+	for _, im := range insts {
 		valid, decided := mc.compare(c, m, rs, im, &ts, "unevaluated*")
 		if !decided {
 			continue
